@@ -770,6 +770,11 @@ def report(ctx, total):
 
 
 # ---------------------------------------------------------------------- run
+def _same(a, b):
+    """Equal numbers; two NaN count as equal."""
+    return a == b or (a != a and b != b)
+
+
 def multi_part(quick):
     """
     All small configurations of multi_run_ode against direct run_ode calls.
@@ -798,57 +803,71 @@ def multi_part(quick):
     s1 = np.array([1.0, -2.0])
     s2 = np.array([0.5, 0.25])
     s3 = np.array([-1.0, 3.0])
+    # s0: first coordinate 0, the controller output stays 0 whatever the
+    # gain is: well-behaved next to start states that diverge / fail
+    s0 = np.array([0.0, 1.0])
     groups = [[], [s1], [s2, s3]]
     stepss = (2, 3, 7) if quick else (2, 3, 7, 10)
     cnt = 0
     bad = []
-    for tests, trains in itertools.product(groups, groups):
-        if not tests and not trains:
-            continue
-        for (ts, trs) in itertools.product(stepss, stepss):
-            for (tt, trt) in ((0.5, 2.0), (2.0, 0.5), (1.0, 1.0)):
-                for (usd, gamma) in ((-1, 0.1), (1, 2.0)):
-                    got = []
-                    params = np.array([-1.0])
-                    multi_run_ode(tests, trains,
-                                  lambda i, o, j, t: got.append(
-                                      (i, np.array(o), j, t)),
-                                  eqs, ctrl, params, 1, ts, tt, trs, trt,
-                                  usd, gamma)
-                    cnt += 1
-                    exp = []
-                    for sp in tests:
-                        exp.append(run_ode(sp, eqs, ctrl, params, 1, ts,
-                                           tt))
-                    for sp in trains:
-                        exp.append(run_ode(sp, eqs, ctrl, params, 1, trs,
-                                           trt))
-                    want = [ts] * len(tests) + [trs] * len(trains)
-                    ok = len(got) == len(exp)
-                    why = "number of collected results"
-                    if ok:
-                        for k, (i, o, j, t) in enumerate(got):
-                            if i != k:
-                                ok, why = False, "index order"
-                            elif o.shape[0] not in (want[k], 1):
-                                ok = False
-                                why = (f"result {k} has {o.shape[0]} rows, "
-                                       f"requested {want[k]}")
-                            elif not np.array_equal(o, exp[k]):
-                                ok, why = False, f"result {k} differs"
-                            elif j != j_from_ode(exp[k], 2, usd, gamma) \
-                                    or t != t_from_ode(exp[k]):
-                                ok, why = False, f"J or t of result {k}"
-                    if not ok and len(bad) < 3:
-                        bad.append((
-                            "multi_run_ode|" + why.split(" has ")[0].split(
-                                " 0")[0],
-                            f"multi_run_ode with {len(tests)} test and "
-                            f"{len(trains)} training states, steps "
-                            f"({ts}, {trs}), times ({tt}, {trt}): {why}",
-                            {"multi": True, "tests": len(tests),
-                             "trains": len(trains), "steps": [ts, trs],
-                             "times": [tt, trt]}))
+    # gain -1: all well-behaved; 40: states with x0 != 0 leave +-1e10 within
+    # the time limit (run cut short); 1e30: controller output out of range
+    # at t = 0 (single failure row)
+    plan = [(groups, stepss, -1.0)]
+    mixed = [[], [s1, s0], [s0, s1], [s0, s1, s0]]
+    plan += [(mixed, (3,) if quick else (3, 7), g) for g in (40.0, 1e30)]
+    for groups, stepss, gain in plan:
+        for tests, trains in itertools.product(groups, groups):
+            if not tests and not trains:
+                continue
+            for (ts, trs) in itertools.product(stepss, stepss):
+                for (tt, trt) in ((0.5, 2.0), (2.0, 0.5), (1.0, 1.0)):
+                    for (usd, gamma) in ((-1, 0.1), (1, 2.0)):
+                        got = []
+                        params = np.array([gain])
+                        multi_run_ode(tests, trains,
+                                      lambda i, o, j, t: got.append(
+                                          (i, np.array(o), j, t)),
+                                      eqs, ctrl, params, 1, ts, tt, trs, trt,
+                                      usd, gamma)
+                        cnt += 1
+                        exp = []
+                        for sp in tests:
+                            exp.append(run_ode(sp, eqs, ctrl, params, 1, ts,
+                                               tt))
+                        for sp in trains:
+                            exp.append(run_ode(sp, eqs, ctrl, params, 1, trs,
+                                               trt))
+                        want = [ts] * len(tests) + [trs] * len(trains)
+                        ok = len(got) == len(exp)
+                        why = "number of collected results"
+                        if ok:
+                            for k, (i, o, j, t) in enumerate(got):
+                                if i != k:
+                                    ok, why = False, "index order"
+                                elif o.shape[0] not in (want[k], 1):
+                                    ok = False
+                                    why = (f"result {k} has {o.shape[0]} rows, "
+                                           f"requested {want[k]}")
+                                elif not np.array_equal(o, exp[k]):
+                                    ok, why = False, f"result {k} differs"
+                                elif not (_same(j, j_from_ode(
+                                        exp[k], 2, usd, gamma))
+                                        and _same(t, t_from_ode(exp[k]))):
+                                    ok, why = False, f"J or t of result {k}"
+                        if not ok and len(bad) < 3:
+                            bad.append((
+                                "multi_run_ode|" + why.split(" has ")[0].split(
+                                    " 0")[0],
+                                f"multi_run_ode with test states "
+                                f"{[x.tolist() for x in tests]} and training "
+                                f"states {[x.tolist() for x in trains]}, "
+                                f"controller gain {gain}, steps "
+                                f"({ts}, {trs}), times ({tt}, {trt}): {why} "
+                                "(compared with run_ode on each state alone)",
+                                {"multi": True, "tests": len(tests),
+                                 "trains": len(trains), "steps": [ts, trs],
+                                 "times": [tt, trt], "gain": gain}))
     return cnt, bad
 
 
